@@ -357,6 +357,36 @@ Fixpoint run {St : Type} (step : St -> cmd -> list Ev * St * result) (st : St) (
   end.
 Definition outs {St : Type} (r : list (list Ev * result) * St) := fst r.
 
+(* ---------------------------------------------------------------------------------------------- *)
+(* asyncRunner (func.go start / step / onFulfilled / onRejected): the body of an async function is run by a bare
+   `generator`; each await suspends it, and the reaction job of the awaited promise resumes it with gen.next(x)
+   (fulfilled with x) or gen.nextThrow(e) (rejected with e); completion settles the function's own promise.
+   The settlements of the awaited promises are given as a list: RNext x = fulfilled with x, RThrow e = rejected with e.
+   One entry per activation: the side effects and what the runner did (ORes v false = await v; ORes v true =
+   promiseCap.resolve(v); OThrow e = promiseCap.reject(e)). *)
+Fixpoint ar_run (b : B) (i : binput) (h : list cmd) : list (list Ev * result) :=
+  let (l, lf) := run_tree (fun _ => CErr tyerr) (bstep b i) in
+  match lf with
+  | LYield v _ b' =>
+      (l, ORes v false) ::
+      match h with
+      | RNext x :: h' => ar_run b' (BNext x) h'         (* onFulfilled: ar.gen.next(arg) *)
+      | RThrow e :: h' => ar_run b' (BThrow e) h'       (* onRejected: ar.gen.nextThrow(reason) *)
+      | _ => []
+      end
+  | LDone v _ => [(l, ORes v true)]
+  | LThrew e _ => [(l, OThrow e)]
+  | LYieldStar _ _ _ => [(l, ODiverge)]                 (* an async body has no yield* *)
+  end.
+
+(* a driver that stops calling once the generator has completed *)
+Fixpoint until_done (os : list (list Ev * result)) : list (list Ev * result) :=
+  match os with
+  | [] => []
+  | (l, ORes v false) :: r => (l, ORes v false) :: until_done r
+  | o :: _ => [o]
+  end.
+
 (* trees without calls of the body on its own generator *)
 Fixpoint reent_free (t : btree) : Prop :=
   match t with
@@ -500,6 +530,7 @@ Inductive exp :=
 | ECallSpread (a b : exp)              (* F(...[a, b]) *)
 | EArr (a b : exp) | EObj (a b : exp) | ETpl (a b : exp)     (* [a, b]   {a: a, b: b}   T`${a}|${b}` *)
 | EYield (a : exp)                     (* (yield a) in operand position *)
+| EAwaitBad (z : Z)                    (* async bodies only: await of a promise whose `constructor` getter throws z *)
 | EYieldStar (s : src)                 (* (yield* s) *)
 with src :=
 | SrcGen (arg : exp) (body : stmt)     (* a fresh generator of the same language, its x0 = arg *)
@@ -610,6 +641,8 @@ Fixpoint dE (top : bool) (e : exp) (r : env) (H : handlers) (k : val -> itree) {
   | ETpl a b => dE top a r H (fun va => dE top b r H (fun vb => k (VTpl [va; vb])))
   | EYield a => dE top a r H (fun v => TYield v true r (fun i => resume_in i k H r))
   | EYieldStar s => dStar top true s r H k
+  | EAwaitBad z =>   (* Await: PromiseResolve(%Promise%, v) is abrupt => thrown at the await, no suspension *)
+      TEmit (VArr [VInt 61; VInt z]) (kt H (VInt z) r)
   end
 with dStar (top : bool) (wants : bool) (s : src) (r : env) (H : handlers) (k : val -> itree) {struct s} : itree :=
   match s with
@@ -867,5 +900,226 @@ Fixpoint interleave (a b : list (list val)) (n : nat) : list val :=
       | x :: a', [] => x ++ interleave a' [] n'
       | [], y :: b' => y ++ interleave [] b' n'
       | x :: a', y :: b' => x ++ y ++ interleave a' b' n'
+      end
+  end.
+
+(* ---------------------------------------------------------------------------------------------- *)
+(* A resumable small-step machine with an EXPLICIT continuation stack for the core of the body language
+   (everything except for-of / yield*, whose inner generators are separate objects).  A suspended body is plain data:
+   the locals and the list of frames; resumption pushes a value / a throw / a return into that data. *)
+
+Inductive bop := BAdd | BCall | BArr | BObj | BTpl.
+Definition bop_apply (o : bop) (a b : val) : option val * val :=
+  match o with
+  | BAdd => (None, vadd a b)
+  | BCall => (Some (VArr [VInt 77; a; b]), vcall a b)
+  | BArr => (None, VArr [a; b])
+  | BObj => (None, VObj [a; b])
+  | BTpl => (None, VTpl [a; b])
+  end.
+
+Inductive abrupt := AThrow (v : val) | AReturn (v : val) | ABreak | AContinue.
+
+Inductive frame :=
+| FBinL (o : bop) (b : exp)          (* evaluating the left operand; b is still to be evaluated *)
+| FBinR (o : bop) (va : val)         (* left operand evaluated to va (a partially evaluated expression) *)
+| FYieldE | FYieldS                  (* the operand of a yield expression / yield statement is being evaluated *)
+| FExprStmt | FAssign (x : nat) | FLog | FIf (a b : stmt) | FRet | FThrow
+| FSeq (b : stmt)
+| FLoop (n m x : nat) (body : stmt)  (* counted loop: m iterations remain *)
+| FCatch (c : stmt)                  (* pending catch clause *)
+| FFinally (f : stmt)                (* pending finally block *)
+| FFinCompl (a : option abrupt).     (* a finally block is running; afterwards the saved completion continues *)
+
+Inductive control :=
+| CE (e : exp) | CS (s : stmt) | CVal (v : val) | CNorm | CAbr (a : abrupt) | CEmitThen (ev : val).
+Definition config := (control * env * list frame)%type.
+
+Inductive mout :=
+| OTau (c : config) | OEmit (ev : val) (c : config)
+| OYield (v : val) (wants : bool) (r : env) (K : list frame)       (* SUSPENDED: (r, K) is all that is kept *)
+| OReent (c : cmd val) (k : callres val -> config)
+| OFinDone (v : val) (r : env) | OFinThrew (e : val) (r : env).
+
+Definition enc_callres (a : callres val) : val :=
+  match a with CRes v d => VArr [VInt 90; v; b2v d] | CErr e => VArr [VInt 91; e] end.
+
+Definition mstep (c : config) : mout :=
+  let '(ctl, r, K) := c in
+  match ctl with
+  | CE e =>
+      match e with
+      | EConst z => OTau (CVal (VInt z), r, K)
+      | EVar x => OTau (CVal (getv r x), r, K)
+      | EAdd a b => OTau (CE a, r, FBinL BAdd b :: K)
+      | ECall a b | ECallSpread a b => OTau (CE a, r, FBinL BCall b :: K)
+      | EArr a b => OTau (CE a, r, FBinL BArr b :: K)
+      | EObj a b => OTau (CE a, r, FBinL BObj b :: K)
+      | ETpl a b => OTau (CE a, r, FBinL BTpl b :: K)
+      | EYield a => OTau (CE a, r, FYieldE :: K)
+      | EAwaitBad z => OEmit (VArr [VInt 61; VInt z]) (CAbr (AThrow (VInt z)), r, K)
+      | EYieldStar _ => OFinThrew VTypeErr r
+      end
+  | CS s =>
+      match s with
+      | SSkip => OTau (CNorm, r, K)
+      | SExpr e => OTau (CE e, r, FExprStmt :: K)
+      | SYield a => OTau (CE a, r, FYieldS :: K)
+      | SAssign x e | SDestr x e => OTau (CE e, r, FAssign x :: K)
+      | SLog e => OTau (CE e, r, FLog :: K)
+      | SLogLocals => OEmit (VArr [VInt 80; getv r 0; getv r 1; getv r 2]) (CNorm, r, K)
+      | SSeq a b => OTau (CS a, r, FSeq b :: K)
+      | SIf c a b => OTau (CE c, r, FIf a b :: K)
+      | SRepeat n x body => OTau (CNorm, r, FLoop n n x body :: K)
+      | STryCatch b c => OTau (CS b, r, FCatch c :: K)
+      | STryFinally b f => OTau (CS b, r, FFinally f :: K)
+      | STryCF b c f => OTau (CS b, r, FCatch c :: FFinally f :: K)
+      | SReturn e => OTau (CE e, r, FRet :: K)
+      | SThrow e => OTau (CE e, r, FThrow :: K)
+      | SBreak => OTau (CAbr ABreak, r, K)
+      | SContinue => OTau (CAbr AContinue, r, K)
+      | SReenter c => OReent c (fun a => (CEmitThen (enc_callres a), r, K))
+      | SYieldStar _ | SForOf _ _ _ => OFinThrew VTypeErr r
+      end
+  | CEmitThen ev => OEmit ev (CNorm, r, K)
+  | CVal v =>
+      match K with
+      | [] => OFinDone v r
+      | f :: K' =>
+          match f with
+          | FBinL o b => OTau (CE b, r, FBinR o v :: K')
+          | FBinR o va =>
+              match bop_apply o va v with
+              | (Some ev, res) => OEmit ev (CVal res, r, K')
+              | (None, res) => OTau (CVal res, r, K')
+              end
+          | FYieldE => OYield v true r K'
+          | FYieldS => OYield v false r K'
+          | FExprStmt => OTau (CNorm, r, K')
+          | FAssign x => OTau (CNorm, upd x v r, K')
+          | FLog => OEmit v (CNorm, r, K')
+          | FIf a b => OTau (CS (if truthy v then a else b), r, K')
+          | FRet => OTau (CAbr (AReturn v), r, K')
+          | FThrow => OTau (CAbr (AThrow v), r, K')
+          | _ => OFinThrew VTypeErr r
+          end
+      end
+  | CNorm =>
+      match K with
+      | [] => OFinDone VUndef r
+      | f :: K' =>
+          match f with
+          | FSeq b => OTau (CS b, r, K')
+          | FLoop n m x body =>
+              match m with
+              | O => OTau (CNorm, r, K')
+              | S m' => OTau (CS body, upd x (VInt (Z.of_nat (n - m))) r, FLoop n m' x body :: K')
+              end
+          | FCatch _ => OTau (CNorm, r, K')
+          | FFinally f' => OTau (CS f', r, FFinCompl None :: K')
+          | FFinCompl None => OTau (CNorm, r, K')
+          | FFinCompl (Some a) => OTau (CAbr a, r, K')
+          | _ => OFinThrew VTypeErr r
+          end
+      end
+  | CAbr a =>
+      match K with
+      | [] =>
+          match a with
+          | AThrow e => OFinThrew e r
+          | AReturn v => OFinDone v r
+          | _ => OFinDone VUndef r
+          end
+      | f :: K' =>
+          match f, a with
+          | FCatch c, AThrow e => OTau (CS c, upd 3 e r, K')
+          | FFinally f', _ => OTau (CS f', r, FFinCompl (Some a) :: K')
+          | FLoop _ _ _ _, ABreak => OTau (CNorm, r, K')
+          | FLoop n m x body, AContinue => OTau (CNorm, r, FLoop n m x body :: K')
+          | _, _ => OTau (CAbr a, r, K')
+          end
+      end
+  end.
+
+(* resuming suspended data (r, K) *)
+Definition resume_cfg (w : bool) (r : env) (K : list frame) (i : tin) : config :=
+  match i with
+  | BStart => ((if w then CVal VUndef else CNorm), r, K)
+  | BNext x => ((if w then CVal x else CNorm), r, K)
+  | BThrow x | BIterFail x => (CAbr (AThrow x), r, K)
+  | BReturn x => (CAbr (AReturn x), r, K)
+  end.
+
+Definition mload (s : stmt) : config := (CS s, env0, []).
+
+(* the core: no for-of, no yield* *)
+Fixpoint coreE (e : exp) : bool :=
+  match e with
+  | EConst _ | EVar _ | EAwaitBad _ => true
+  | EAdd a b | ECall a b | ECallSpread a b | EArr a b | EObj a b | ETpl a b => coreE a && coreE b
+  | EYield a => coreE a
+  | EYieldStar _ => false
+  end.
+Fixpoint coreS (s : stmt) : bool :=
+  match s with
+  | SSkip | SLogLocals | SBreak | SContinue | SReenter _ => true
+  | SExpr e | SYield e | SAssign _ e | SDestr _ e | SLog e | SReturn e | SThrow e => coreE e
+  | SSeq a b | STryCatch a b | STryFinally a b => coreS a && coreS b
+  | SIf c a b => coreE c && coreS a && coreS b
+  | SRepeat _ _ b => coreS b
+  | STryCF a b c => coreS a && coreS b && coreS c
+  | SYieldStar _ | SForOf _ _ _ => false
+  end.
+
+(* driving: one activation up to the next suspension / completion; a call of the body on its own generator is
+   answered with a TypeError (the generator is executing) *)
+Inductive mleaf := MLYield (v : val) (w : bool) (r : env) (K : list frame) | MLDone (v : val) (r : env) | MLThrew (e : val) (r : env).
+Fixpoint mrun (fuel : nat) (c : config) : option (list val * mleaf) :=
+  match fuel with
+  | O => None
+  | S fuel' =>
+      match mstep c with
+      | OTau c' => mrun fuel' c'
+      | OEmit ev c' => match mrun fuel' c' with Some (l, lf) => Some (ev :: l, lf) | None => None end
+      | OYield v w r K => Some ([], MLYield v w r K)
+      | OReent _ k => mrun fuel' (k (CErr VTypeErr))
+      | OFinDone v r => Some ([], MLDone v r)
+      | OFinThrew e r => Some ([], MLThrew e r)
+      end
+  end.
+
+Inductive tleaf := TLYield (v : val) (w : bool) (r : env) (k : tin -> itree) | TLDone (v : val) (r : env) | TLThrew (e : val) (r : env).
+Fixpoint trun (t : itree) : list val * tleaf :=
+  match t with
+  | TDone v r => ([], TLDone v r)
+  | TThrew e r => ([], TLThrew e r)
+  | TYield v w r k => ([], TLYield v w r k)
+  | TYieldStar _ _ r _ => ([], TLThrew VTypeErr r)
+  | TEmit ev t' => let (l, lf) := trun t' in (ev :: l, lf)
+  | TReent _ k => trun (k (CErr VTypeErr))
+  end.
+
+(* what a driver sees of one activation: the log, how it ended, the locals *)
+Inductive wobs := WYield (l : list val) (v : val) (r : env) | WDone (l : list val) (v : val) (r : env) | WThrew (l : list val) (e : val) (r : env).
+
+(* direct evaluation: each yield of the tree is answered by the next element of h *)
+Fixpoint twalk (h : list tin) (t : itree) : list wobs :=
+  let (l, lf) := trun t in
+  match lf with
+  | TLDone v r => [WDone l v r]
+  | TLThrew e r => [WThrew l e r]
+  | TLYield v w r k =>
+      WYield l v r :: match h with [] => [] | i :: h' => twalk h' (k i) end
+  end.
+(* the machine: suspend to data at each yield, resume the data with the next element of h *)
+Fixpoint mwalk (fuel : nat) (h : list tin) (c : config) : option (list wobs) :=
+  match mrun fuel c with
+  | None => None
+  | Some (l, MLDone v r) => Some [WDone l v r]
+  | Some (l, MLThrew e r) => Some [WThrew l e r]
+  | Some (l, MLYield v w r K) =>
+      match h with
+      | [] => Some [WYield l v r]
+      | i :: h' => match mwalk fuel h' (resume_cfg w r K i) with Some os => Some (WYield l v r :: os) | None => None end
       end
   end.
